@@ -1,7 +1,11 @@
 import Capella.Driver.Util
 import Capella.Model.Git
 import Capella.Model.GitPush
-/-! Protocol driver for the git-transaction model (C16): ops `git.run`, `git.objectlike`. -/
+import Capella.Model.GitPrepared
+/-! Protocol driver for the git-transaction model (C16): ops `git.run`, `git.objectlike`.
+An element of `txns` is a whole `with handler.write_transaction(**opts): body` (no key `step`), or one step of a
+history of prepared transaction objects: `"step": "create"` (options; the object joins the pool if it is not refused)
+or `"step": "run"` (`"tx"`: index into the pool, `"fault"`, `"body"`). -/
 namespace Capella.Driver.Git
 open Lean Capella.Driver Capella.Git
 
@@ -105,7 +109,26 @@ def handle (op : String) (j : Json) : Except String Json := do
     let mut univ : List String := ((files.map (·.1)) ++ (index.map (·.1))).eraseDups
     let mut outs : Array Json := #[]
     let mut rem : Remote := remote0.getD []
+    let mut pool : Array Txn := #[]
     for t in txnsJ do
+      let stepKind := (t.getObjValAs? String "step").toOption
+      if stepKind == some "run" then
+        let fault := (t.getObjValAs? Nat "fault").toOption
+        let i ← t.getObjValAs? Nat "tx"
+        let bodyJ ← t.getObjValAs? (Array Json) "body"
+        let body ← bodyJ.toList.mapM (parseOp subp)
+        for o in body do
+          match o with
+          | .write p _ | .writeAbort p _ | .openOnly p _ | .writeIgnored p _ => univ := if p ∈ univ then univ else p :: univ
+          | _ => pure ()
+        match pool[i]? with
+        | none => throw s!"no transaction object {i}"
+        | some tx =>
+          let r := enterRun fault rev.toList tx body { s with calls := 0, trace := [] } rem
+          s := r.1.1
+          rem := r.2
+          outs := outs.push (stateJson commits.length univ s r.1.2 (remote0.map (fun _ => rem)))
+        continue
       let dry ← t.getObjValAs? Bool "dry"
       let ie ← t.getObjValAs? Bool "ignore_empty"
       let rb := (t.getObjValAs? String "remote_branch").toOption
@@ -121,6 +144,16 @@ def handle (op : String) (j : Json) : Except String Json := do
       let declines := (t.getObjValAs? Bool "remote_declines").toOption.getD false
       -- without a remote (`remote0 = none`) every push is declined: there is no `origin`
       let po : PushOpts := { push := push, declines := declines || remote0.isNone }
+      if stepKind == some "create" then
+        match create none rev.toList o po s with
+        | (s', .ok tx) =>
+          s := s'
+          pool := pool.push tx
+          outs := outs.push (stateJson commits.length univ s none (remote0.map (fun _ => rem)))
+        | (s', .error e) =>
+          s := s'
+          outs := outs.push (stateJson commits.length univ s (some e) (remote0.map (fun _ => rem)))
+        continue
       let r := transactionPush fault rev.toList o po body s rem
       s := r.1.1
       rem := r.2
